@@ -346,6 +346,9 @@ pub fn run_case(case: &mut Case) {
     o.twins = true;
     o.pure_fail = true;
     o.custom_help = true;
+    // flags and arguments backed by environment variables: "Uses environment variable .."
+    o.env = true;
+    o.env_only = false;
     let mut spec = gen_options(&mut rng, o);
     seed_texts(&mut spec, &mut rng, 0);
     if rng.chance(1, 2) && same_named_commands(&mut spec) {
